@@ -57,8 +57,8 @@ def run(ctx: Ctx) -> None:
     rng = ctx.rng
     stats: Dict[str, int] = {}
     # ---- 1. bounded model of the reference (request mode, grammar alphabet)
-    H.run_model(ctx, "HttpFramingMC(request grammar, MaxMsgs=%d)" % ctx.pick(1, 2),
-                H.write_mc_cfg("grammar", MaxMsgs=ctx.pick(1, 2), MaxLines=ctx.pick(3, 4)),
+    H.run_model(ctx, "HttpFramingMC(request grammar, MaxMsgs=2, MaxLines=%d)" % ctx.pick(3, 4),
+                H.write_mc_cfg("grammar", MaxMsgs=2, MaxLines=ctx.pick(3, 4), MaxPending=ctx.pick(0, 3)),
                 timeout=ctx.pick(400, 3000))
     groups: List[H.Group] = []
     # ---- 2. spec -> code: lexeme paths of the model driven into the real parser
